@@ -102,6 +102,7 @@ type obSummary struct {
 	Winners      map[string]int `json:"deciding_solver"`
 	Merged       int            `json:"pure_calls_summarised"`
 	IfConv       int            `json:"diamonds_if_converted"`
+	StateMerges  int            `json:"state_merges"`
 	Reached      []string       `json:"reach_labels_hit"`
 	Missing      []string       `json:"reach_labels_missing,omitempty"`
 	Notes        []string       `json:"notes,omitempty"`
@@ -127,7 +128,7 @@ func report(l *Loaded, cfg *Config, spec *Spec, obs []*Obligation, results map[s
 		s := obSummary{Name: o.Name, Harness: o.Harness, Claim: o.Claim, Bounds: o.Bounds, Params: o.params, Items: r.Items, Paths: r.Paths, DeadPaths: r.Dead,
 			Forks: r.Forks, Steps: r.Steps, Asserts: r.Asserts, Trivial: r.AssertsTrivial, Verdicts: r.Verdicts, Queries: r.Solver.Queries,
 			Sat: r.Solver.Sat, Unsat: r.Solver.Unsat, Unknown: r.Solver.Unknown, SolverS: r.Solver.Seconds, Portfolio: r.Solver.Portfolio,
-			CrossOK: r.Solver.CrossOK, Winners: r.Solver.Winners, Merged: r.Merged, IfConv: r.IfConverted, Seconds: r.Seconds}
+			CrossOK: r.Solver.CrossOK, Winners: r.Solver.Winners, Merged: r.Merged, IfConv: r.IfConverted, StateMerges: r.StateMerges, Seconds: r.Seconds}
 		status := "discharged"
 		for k := range r.Reached {
 			s.Reached = append(s.Reached, k)
@@ -167,6 +168,35 @@ func report(l *Loaded, cfg *Config, spec *Spec, obs []*Obligation, results map[s
 		}
 		for _, f := range r.Failures {
 			desc := fmt.Sprintf("%s: %s at %s", f.Kind, f.Msg, f.Pos)
+			if f.Kind == "race" {
+				// identified on a feasible symbolic path by the lockset discipline; the replay file
+				// records the inputs that drive execution to the access (there is no native oracle
+				// for a race short of the race detector with a second goroutine)
+				replayN++
+				path := writeReplay(prop, o, f, replayN)
+				isKnown := false
+				for _, k := range known {
+					if k.matches(prop, o.Name, f) {
+						isKnown = true
+						knownHits++
+						fmt.Printf("KNOWN-FINDING: property=%s %s [obligation=%s %s]\n", prop, k.Text, o.Name, desc)
+						s.Failures = append(s.Failures, desc+" [known finding: "+k.Text+"] replay="+path)
+						break
+					}
+				}
+				if isKnown {
+					if status == "discharged" {
+						status = "known-finding"
+					}
+					continue
+				}
+				status = "violated"
+				violations++
+				s.Failures = append(s.Failures, desc+" [lockset] replay="+path)
+				violationLines = append(violationLines, fmt.Sprintf("VIOLATION property=%s replay=%s", prop, path))
+				fmt.Printf("  failed: obligation=%s %s (lockset; call chain: %s)\n", o.Name, desc, strings.Join(f.Stack, " <- "))
+				continue
+			}
 			if f.Kind == "deadlock" {
 				status = "violated"
 				violations++
